@@ -15,7 +15,13 @@
    expiring deadlines, the driver plays each over the plain socket, mtls.Conn (inspector, plain-text client) and a real
    TLS client through mosn's TLS server side, letting the deadline of the waiting Read expire on demand (no sleeping);
    e2e: listener with inspector + tls_context, plain-text and TLS clients, and a phase with a 150 ms read deadline in
-   which the client continues only after the net.read hook showed a read that returned without data in flight."""
+   which the client continues only after the net.read hook showed a read that returned without data in flight.
+   Protocol LIST dimension (Detect.tla `scope`): the selection loop over an ordered list is model-checked against the
+   order-free rule (first ok wins; AGAIN while any listed matcher needs bytes; FAILED only if all failed) incl. defect
+   LastVerdictWins; TLC emits the list shapes (length <= 3 x position of the connection's own protocol); the driver
+   realises them with every registered protocol as partner at the detection function (every prefix), through the
+   proxy.OnData-shaped read filter (first read of 1..26 bytes, byte-by-byte) and on in-process MOSN listeners
+   configured with downstream_protocol "a,b[,c]"."""
 import concurrent.futures as cf
 import json, os, random, re
 import vlib
@@ -56,7 +62,10 @@ def variant(run):
     v = run.get("proto", "?")
     if run.get("proto") == "Http2":
         v += "/cont%d" % run.get("conts", 0)
-    v += "/" + run.get("mode", "?")     # listener configuration: fixed | auto | list
+    mode = run.get("mode", "?")         # listener configuration: fixed | auto | list | list:<a,b,..>
+    if mode.startswith("list:"):        # class of list: its length and the position of the connection's own protocol
+        mode = "list%s/own%s" % (run.get("listn", "?"), run.get("ownpos", "?"))
+    v += "/" + mode
     if run.get("transport", "plain") != "plain":
         v += "/" + run["transport"]       # inspector (peeking wrapper, plain-text client) | tls
     return v
@@ -82,12 +91,21 @@ def run(ctx):
                      cases_to=traw, timeout=900)
     ctx.add_tlc(r)
     ctx.add_tlc(vlib.run_tlc(ctx, "wire", "Framing", "Framing_timeout_peek.cfg" if q else "Framing_timeout_peek_thorough.cfg", timeout=900))
-    for d in ("OffByOne", "DrainHeader", "ConsumePartial", "PrefaceFlagEarly", "ShortCountAfterTimeout"):
-        if vlib.run_tlc(ctx, "wire", "Framing", "Framing_defect_%s.cfg" % d, expect_ok=False)["ok"]:
-            raise vlib.Inconclusive("Framing model does not reject defect %s: invariants vacuous" % d)
-    ctx.add_tlc(vlib.run_tlc(ctx, "wire", "Detect", "Detect.cfg"))
-    if vlib.run_tlc(ctx, "wire", "Detect", "Detect_defect.cfg", expect_ok=False)["ok"]:
-        raise vlib.Inconclusive("Detect model does not reject the EarlyFail defect")
+    # every named defect must be rejected (non-vacuity); these runs are independent of everything else
+    defect_cfgs = [("Framing", "Framing_defect_%s.cfg" % d) for d in
+                   ("OffByOne", "DrainHeader", "ConsumePartial", "PrefaceFlagEarly", "ShortCountAfterTimeout")] + \
+                  [("Detect", "Detect_defect.cfg"), ("Detect", "Detect_defect_LastVerdictWins.cfg")]
+    dpool = cf.ThreadPoolExecutor(max_workers=4)
+    djobs = [(c, dpool.submit(vlib.run_tlc, ctx, "wire", m, c, 2, 600, None, None, False, None, None, None, False, False))
+             for m, c in defect_cfgs]
+    # detection: the listener's ordered protocol list is a dimension; TLC emits the shapes (length, position of the
+    # connection's own protocol) the driver realises with the registered protocols
+    lraw = os.path.join(ctx.tmp, "lists_raw.jsonl")
+    ctx.add_tlc(vlib.run_tlc(ctx, "wire", "Detect", "Detect.cfg", workers=1, cases_to=lraw))
+    lists = os.path.join(ctx.tmp, "lists.jsonl")
+    with open(lists, "w") as fh:
+        for ln in sorted(set(open(lraw).read().splitlines())):
+            fh.write(ln + "\n")
 
     lines = sorted(set(open(raw).read().splitlines()))
     small = [ln for ln in lines if len(json.loads(ln)["frames"]) <= 2]
@@ -123,13 +141,18 @@ def run(ctx):
     with cf.ThreadPoolExecutor(max_workers=8) as ex:
         for p in PROTOS:
             jobs.append(("framing", ex.submit(drive, ctx, binary, "zones", p, ["-cases", zones], "z")))
-            jobs.append(("framing", ex.submit(drive, ctx, binary, "native", p, ["-random", nrand], "n")))
-        jobs.append(("detect", ex.submit(drive, ctx, binary, "detect", ",".join(PROTOS), [], "d")))
+            jobs.append(("framing", ex.submit(drive, ctx, binary, "native", p, ["-random", nrand, "-lists", lists], "n")))
+        jobs.append(("detect", ex.submit(drive, ctx, binary, "detect", ",".join(PROTOS), ["-lists", lists], "d")))
         # end to end: in-process MOSN (Auto listener, real proxy filter, real sockets), HTTP/1 upstream sees the requests
         jobs.append(("framing", ex.submit(drive, ctx, binary, "e2e", "Http1", ["-cases", zones, "-random", nrand], "e")))
         parts = {"framing": [], "detect": []}
         for kind, j in jobs:
             parts[kind] += j.result()
+
+    for c, j in djobs:
+        if j.result()["ok"]:
+            raise vlib.Inconclusive("the model does not reject %s: invariants vacuous" % c)
+    dpool.shutdown()
 
     # ---------- 3. TLC decides
     nruns = nfeeds = nontrivial = 0
@@ -166,6 +189,8 @@ def run(ctx):
                 return "C07:%s:%s:%s" % (variant(rn), rn.get("cls", "?"), k)
             e = evs[line - 1]
             who = (":" + e["m"]) if e.get("ev") == "match" else ""
+            if e.get("ev") == "select" and "scope" in e:
+                who = ":list%s/own%s" % (e.get("listn"), e.get("ownpos"))
             return "C07:detect:%s%s:%s" % (rn.get("truth", "?"), who, k)
 
         for line, kinds in sorted(mm.items()):
